@@ -3,7 +3,7 @@ import math
 
 from hypothesis import strategies as st
 
-from pbt import netgen, oracles
+from pbt import netgen, oracles, qcal
 from pbt.core import Result, pf_tol, silence, exc_sig, pf_outcome
 
 ID = "C01"
@@ -18,7 +18,7 @@ RULE = ("Hypothesis draws a network recipe (1-3 voltage levels, <=14 buses, all 
 ASSUMPTIONS = ["balance tolerance 1e-5 MVA + 1e-7 relative (measured floor of pypower's Q split)",
                "solver tolerance_mva scaled with net.sn_mva", "non-convergence / documented rejections are legal and counted"]
 
-PROFILE = netgen.profile(dcline=True, oos=0.06, open_prob=0.25,
+PROFILE = netgen.profile(dcline=True, oos=0.06, open_prob=0.25, slack_any_level=True,
                          bus_kinds={"load": 6, "sgen": 3, "gen": 2, "storage": 1, "shunt": 1, "ward": 1, "xward": 1,
                                     "motor": 1, "asymmetric_load": 1, "asymmetric_sgen": 1})
 
@@ -59,7 +59,8 @@ def _case(draw, tier):
         recipe = draw(netgen.grid(QLIM_PROFILE))
         return {"recipe": recipe, "opt": {"mode": "ac", "voltage_depend_loads": draw(st.booleans()), "trafo_model": "t",
                                           "calculate_voltage_angles": True, "numba": draw(st.booleans()), "enforce_q_lims": True,
-                                          "lightsim2grid": False}}
+                                          "lightsim2grid": False},
+                "qcal": draw(st.lists(st.sampled_from(qcal.FACTORS), min_size=4, max_size=4)) if draw(st.integers(0, 2)) else None}
     recipe = draw(netgen.grid(PROFILE))
     if draw(st.integers(0, 4)) == 0:
         opt = {"mode": "dc"}
@@ -128,6 +129,9 @@ def check(case):
     net, maps = netgen.build(recipe)
     dc = opt["mode"] == "dc"
     res.label("mode:" + opt["mode"])
+    cal = None
+    if case.get("qcal"):
+        cal = qcal.apply(net, case["qcal"], lambda n: run_pf(n, dict(opt, enforce_q_lims=False), recipe))
     try:
         run_pf(net, opt, recipe)
     except Exception as e:
@@ -141,6 +145,10 @@ def check(case):
         res.skipped = "not-converged"
         return res
     sn = recipe.get("sn_mva", 1.0)
+    if cal:
+        res.label("calibrated-q-limits")
+        if qcal.limited_later(net, cal, 1e-4 * max(1.0, sn / 100.0)):
+            res.label("gen-limited-in-a-later-enforcement-round")
     node, S, parts = oracles.nodal_balance(net, dc=dc)
     groups = {}
     for b, n in node.items():
